@@ -151,6 +151,8 @@ dedup_(&mut nns);
             // every stored item inside the filter is either returned, or the result is full and the item is not nearer than any returned one
             forall|id: u32| #![trigger self.items@.contains(id)] self.items@.contains(id) && in_filter(opt.candidates, id) ==>
                 exact_at_exit(rtxn.view(), self.index, query_leaf.lv(), opt.count, out@, id)),
+        // C03: on a C01 forest every returned id is one of reader.item_ids()
+        r matches Ok(out) ==> (search_forest_ok(rtxn.view(), self.index, self.roots@, self.items@) ==> forall|k: int| 0 <= k < out@.len() ==> self.items@.contains((#[trigger] out@[k]).0)),
         // C03 (budget monotonicity, with lemma_budget_monotone of unit search_lib): the candidates are those of the budget-independent
         // traversal stopped where the budget says, and the result is the selection of the `count` nearest among them
         r matches Ok(out) ==> (self.items@.len() == 0 ==> out@.len() == 0),
@@ -176,6 +178,7 @@ dedup_(&mut nns);
             }
             // C03 (necessary for budget monotonicity): no candidate collected by the traversal is dropped before scoring
             assert forall|x: u32| nns_a.contains(x) implies nns@.contains(x) by { assert(nns_b.contains(x)); }
+            if sf { assert forall|x: u32| nns_a.contains(x) implies items.contains(x) by { let j = choose|j: int| 0 <= j < nns_a.len() && nns_a[j] == x; assert(items.contains(nns_a[j])); } }
             assert forall|i: int| 0 <= i < nns@.len() implies nns_a.contains(#[trigger] nns@[i]) by { assert(nns@.contains(nns@[i])); assert(nns_b.contains(nns@[i])); }
             // C02: with the queue drained, every stored item inside the filter is among the candidates
             if sf && unl {
@@ -353,6 +356,7 @@ dedup_(&mut nns);
             vw == rtxn.view(), s0 == t_init(self.roots@), qv == query_leaf.vector.vv(),
             t_stops(vw, self.index, opt.candidates, qv, s0, budget(opt, self.roots@.len() as usize), jfin),
             t_iter(vw, self.index, opt.candidates, qv, s0, jfin).nns == nns_a,
+            sf ==> (forall|x: u32| nns_a.contains(x) ==> items.contains(x)),
             forall|i: int| 0 <= i < nns@.len() ==> nns_a.contains(#[trigger] nns@[i]),
             forall|x: u32| nns_a.contains(x) ==> nns@.contains(x),
             forall|i: int| 0 <= i < nns@.len() ==> in_filter(opt.candidates, #[trigger] nns@[i]),
@@ -405,6 +409,7 @@ dedup_(&mut nns);
             vw == rtxn.view(), s0 == t_init(self.roots@), qv == query_leaf.vector.vv(),
             t_stops(vw, self.index, opt.candidates, qv, s0, budget(opt, self.roots@.len() as usize), jfin),
             t_iter(vw, self.index, opt.candidates, qv, s0, jfin).nns == nns_a,
+            sf ==> (forall|x: u32| nns_a.contains(x) ==> items.contains(x)),
             forall|e: Reverse<(OrderedFloat, ItemId)>| #![trigger sorted_nns.view().count(e)] sorted_nns.view().count(e) > 0 ==> nns_a.contains((e.0).1),
             forall|i: int| 0 <= i < output@.len() ==> nns_a.contains((#[trigger] output@[i]).0),
             // what is still in the heap
